@@ -14,7 +14,7 @@ class C18(Check):
     prop_module = "PoxModel.Properties.C18"
     lean_targets = ["drv_c18"]
     driver = "drv_c18"
-    theorems = ["Pox.C18.reachable_inv", "Pox.C18.bounded", "Pox.C18.unique_live", "Pox.C18.use_once", "Pox.C18.packet_in_form", "Pox.C18.use_to_controller",
+    theorems = ["Pox.C18.reachable_inv", "Pox.C18.bounded", "Pox.C18.unique_live", "Pox.C18.use_once", "Pox.C18.packet_in_form", "Pox.C18.unbuffered_iff_full", "Pox.C18.use_to_controller",
                 "Pox.C18.refines_step", "Pox.C18.refines", "Pox.C18.refines_init", "Pox.C18.spec_step_sound"]
     anchors = [("pox/datapaths/switch.py", "SoftwareSwitchBase.send_packet_in"), ("pox/datapaths/switch.py", "SoftwareSwitchBase._buffer_packet"),
                ("pox/datapaths/switch.py", "SoftwareSwitchBase._process_actions_for_packet_from_buffer"), ("pox/datapaths/switch.py", "SoftwareSwitchBase._rx_packet_out")]
